@@ -1,5 +1,24 @@
 /-
-Lemmas.Log1pBound — (under construction)
+Lemmas.Log1pBound — analysis behind `Properties/C15n.lean` (`log2` with the property's floor on the full range, `ln_1p`).
+
+ §0  `log2_floor_arith(W)`: the assembled Newton bound of `Log2Bound.log2_bound_of` is below `2^-101·|ℓ| + 2^-92`.
+ §1–5 THE SEED `Libm.log1p` (hand port of libm 0.2.16, `Prelude/Libm.lean`), in the style of `Lemmas/LnSeed.lean`:
+      `G_approx37` (the exactly evaluated kernel is within `2^-37` of `k·log 2 + log(1+f)` — `LnSeed.G_approx` with the actual
+      coefficient gaps `|Lg_j − 2/(2j+1)|`), `tailBody`/`tailBody_coarse` (the body `Libm.log1p.tail` with the correction term
+      `c`, rounding errors `160·2^-40`), `corr_hi`/`corr_lo` (`|c| ≤ 2^-33` for `1 + x ≥ 2^-16`), `bigBody`/`big_coarse`
+      (`u = fl(1+x)`, bit-level reduction = `Libm.reduce`, so `LnSeed.reduce_spec` applies), `direct_coarse`/`direct_small`
+      (the branch `f = x`; for `|x| ≤ 2^-20` a RELATIVE bound `2^-18·|x|`), `log1p_unfold`, `hiw_lt_iff` (the high word of
+      the bit pattern is monotone in the magnitude), and
+        `libm_log1p_coarse`: for every finite double `−1 + 2^-16 ≤ h ≤ 2^999`:
+            `|Libm.log1p h − log(1+h)| ≤ 2^-32`, and `≤ 2^-18·|h|` when `|h| ≤ 2^-20`.
+ §6  one Newton step of `ln_1p` over `ℝ` (`newton_t`, `newton_q`, `newton_real`): with `e = x − ln(1+v)`,
+        `|x' − ln(1+v)| ≤ (1+3u²)·(e² + κ + θ·(|e| + e² + κ) + q) + 3u²·|ln(1+v)|`,  `κ = dM·G·(1+2^-18)`,
+      `dM` the relative accuracy of `exp_m1(x)`, `G ≥ |e^x − 1|/e^x`, `θ` the relative and `q` the absolute error of the division.
+ §7  `div_any`: `TwoFloat / TwoFloat` with ANY numerator (tiny or zero): `16u²` relative when numerator and quotient are at
+      least `2^-950` (`Exp2Bound.div_rv`), otherwise `2^-37` relative `+ 2^-1017` (`C13c.div_tt_valid_any_numerator`).
+ §8  `ln1p_step`: the step on pairs, every intermediate a valid pair (in particular the quotient — panic-freedom).
+ §9  `exp2_bound_wide`: `Exp2Bound.exp2_bound_main` on `[−961, 1001]` instead of `[−900, 1000]` (`5640u²`).
+ §10 `log2_stepW`, `log2_bound_ofW`: `Log2Bound.log2_step`/`log2_bound_of` for high words in `[2^-1000, 2^960]`.
 -/
 import TFV.Lemmas.Log2Bound
 import TFV.Lemmas.Log2Seed
